@@ -177,6 +177,35 @@ theorem innerAllR_merge (inner : AVal → Ret) : ∀ (xs : List (AVal × Bool)) 
     | nonFatalErrorsPtr k => rfl
     | errorsPtr fs => rfl
 
+/-- the fuel of the first loop of `ParseCertificates` is immaterial once it exceeds the input length: the `none` it can
+return is never fuel exhaustion (every accepted envelope consumes at least two octets) -/
+theorem splitCertificates_fuel (d : Dialect) (k : Bool) : ∀ (f f' : Nat) (bs : Bytes), bs.length < f → bs.length < f' →
+    splitCertificates d k f bs = splitCertificates d k f' bs
+  | 0, _, _, h, _ => by omega
+  | _, 0, _, _, h => by omega
+  | f+1, f'+1, [], _, _ => by simp [splitCertificates]
+  | f+1, f'+1, b :: bs, h, h' => by
+    simp only [splitCertificates]
+    cases hs : parseField d .strict Gen.ty_certificate {} (b :: bs) with
+    | ok x =>
+      obtain ⟨v, r⟩ := x
+      have hl := cert_nonempty d _ _ _ _ hs
+      simp only []
+      rw [splitCertificates_fuel d k f f' r (by omega) (by omega)]
+    | error e =>
+      simp only []
+      cases k with
+      | false => rfl
+      | true =>
+        simp only [if_true]
+        cases hl : parseField d .lax Gen.ty_certificate {} (b :: bs) with
+        | error e' => rfl
+        | ok x =>
+          obtain ⟨v, r⟩ := x
+          have hlen := cert_nonempty d _ _ _ _ hl
+          simp only []
+          rw [splitCertificates_fuel d true f f' r (by omega) (by omega)]
+
 theorem countLax_eq (d : Dialect) : ∀ cs : List Bytes, countLax d cs = ((cs.map (certVal d)).filter (·.2)).length
   | [] => rfl
   | c :: cs => by
